@@ -160,6 +160,13 @@ def build(plan: dict):
             attrs.append(['as4_path', [[2, [4200000001, 65010]]], {}])
         else:
             attrs.append([target, OPTIONAL_ADD[target], {}])
+    if not k['asn4'] and not any(a[0] == 'as4_path' for a in attrs) and rng.fork('as4-extra').chance(0.4):
+        # a 2-byte session whose UPDATE also holds a well-formed AS4_PATH: discarding some other attribute of the block may not
+        # change how AS_PATH and AS4_PATH are merged (a side stream: the cells generated so far keep their draws)
+        for a in attrs:
+            if a[0] == 'as_path':
+                a[1] = [[2, [k['peer_as'], 23456, 65010]]] if k['peer_as'] != 65001 else [[2, [23456, 65010]]]
+        attrs.append(['as4_path', [[2, [4200000001, 65010]]], {}])
     u = {'attrs': attrs, 'nlri': v4}
     if v6:
         u['mpr'] = {'fam': [2, 1], 'nh': ['2001:db8::9'], 'nlri': v6}
